@@ -32,8 +32,9 @@ type Step struct {
 }
 
 type Behaviour struct {
-	Pre   []Req  `json:"pre"`
-	Steps []Step `json:"steps"`
+	Pre     []Req  `json:"pre"`
+	PrePost Obs    `json:"prepost"` // registry after the prefix
+	Steps   []Step `json:"steps"`
 }
 
 type Finding struct {
@@ -307,6 +308,16 @@ func (w *worker) runBehaviour(b *Behaviour, idx int, rng *rand.Rand) {
 			if resp.Status != 200 {
 				w.col.inconclusive(fmt.Sprintf("prefix request %s %s answered %d", c.Method, c.Target, resp.Status))
 				return
+			}
+			if i == len(b.Pre)-1 && b.PrePost != nil {
+				// the enumerated request must meet a quiescent registry in exactly the state the model starts from
+				got, strangers, ok, _, err := w.waitObs(nm, b.PrePost, 30*time.Second)
+				if err != nil || !ok {
+					w.col.inconclusive(fmt.Sprintf("prefix did not reach the model's registry state: %v got %s strangers=%v want %s",
+						err, obsString(got), strangers, obsString(b.PrePost)))
+					return
+				}
+				pre = b.PrePost
 			}
 			continue
 		}
